@@ -295,3 +295,33 @@ package keyed
 //@   loop 1 invariant inv: ginvs() && objinv(k)
 //@   loop 1 invariant keepkeys: forall key2: any {k.routines[key2]} :: in(k.routines, key2) == csold(in(k.routines, key2)) && k.routines[key2] == csold(k.routines[key2])
 //@   assert unlock 1: keepkeys[C06]: forall key2: any {k.routines[key2]} :: in(k.routines, key2) == csold(in(k.routines, key2)) && k.routines[key2] == csold(k.routines[key2])
+//
+// KeyedRefCount: lock discipline only (C13). refs is guarded by mtx; keyed, and a reference's rc and key, are
+// immutable; rel is an atomic flag. The reference-count clause of C06 is not decided (see /verif/DESIGN.md).
+//
+//@ object KeyedRefCount
+//@   props C13
+//@   lock mtx
+//@   guarded refs
+//@   immutable keyed
+//
+//@ object KeyedRef
+//@   props C13
+//@   immutable rc, key
+//@   atomic rel
+//
+//@ func (*KeyedRef).Release
+//@   props C13
+//@   opt frame = skip
+//@   opt nil-receiver = ok
+//@   requires k == nil || (k.rc != nil && k.rc.keyed != nil)
+//
+//@ func (*KeyedRefCount).RemoveKey
+//@   props C13
+//@   opt frame = skip
+//@   requires k != nil && k.keyed != nil
+//
+//@ func (*KeyedRefCount).AddKeyRef
+//@   props C13
+//@   opt frame = skip
+//@   requires k != nil && k.keyed != nil
